@@ -482,11 +482,11 @@ func (e *Engine) branch(st *State, c *Term) (t, f *State) {
 			return nil, st
 		}
 	}
-	rt := e.solver.Check(append(st.pc[:len(st.pc):len(st.pc)], c))
+	rt := e.solver.Feasible(st.pc, c)
 	if rt == Unsat {
 		return nil, st
 	}
-	rf := e.solver.Check(append(st.pc[:len(st.pc):len(st.pc)], nc))
+	rf := e.solver.Feasible(st.pc, nc)
 	if rf == Unsat {
 		return st, nil
 	}
